@@ -449,7 +449,9 @@ def module_program(rnd):
 POOL = ['e', 't', 'n', 's', 'o', 'i', 'a', 'r', 'x', 'y', '$', '_', 'ee', 'te', 'v1', 'E', 'T']
 FN_POOL = ['fe', 'ft', 'nn', 'F1', 'tt']
 CL_POOL = ['Ce', 'Ct', 'K1']
-WPOOL = ['we_01', 'wt_02', 'wn_03', 'ws_04', 'wo_05', 'wi_06']
+WVAR = ['we_01', 'wt_02', 'wn_03', 'wr_07']
+WLEX = ['ws_04', 'wo_05', 'wi_06', 'wa_08']
+WPOOL = WVAR + WLEX
 
 
 class _Gen:
@@ -481,6 +483,12 @@ class _Gen:
         # generated name can equal, because such a function also refers to locals of the functions around it
         # (known finding C02/with-inner: an outer local is shortened to a name that the with-function declares)
         return WPOOL if self.withfn else POOL
+
+    def lpool(self):
+        # lexical names (let/const, loop and catch variables) of a with-function are disjoint from its var/parameter
+        # names: hoistVars may move `var x` into a var statement that sits inside a block declaring x lexically, and
+        # with renaming switched off nothing makes the two differ - invalid output, reported to C09, not a renaming matter
+        return WLEX if self.withfn else POOL
 
     def emit_decls(self, decls):
         """decls: list of (kw, name); consecutive declarations with the same keyword are sometimes written as
@@ -532,8 +540,12 @@ class _Gen:
         decls = []
         for nm in r.sample(self.dpool(), r.choice([0, 1, 1, 2, 2, 3, 4])):
             kw = r.choice(['let', 'const', 'var', 'var'])
+            if self.withfn:
+                kw = r.choice(['let', 'const']) if nm in WLEX else 'var'
             if kw == 'var' and (nm in no_var or nm in lex):
                 kw = 'let'
+                if self.withfn:
+                    continue
             if kw != 'var' and (nm in no_let or nm in lex or nm in vars_):
                 continue
             (vars_ if kw == 'var' else lex).add(nm)
@@ -606,7 +618,7 @@ class _Gen:
         if k in ('func', 'arrow', 'method', 'named', 'classm', 'gen'):
             saved_withfn = self.withfn
             self.withfn = self.allow_with and not self.strict and k != 'classm' and r.random() < 0.12
-            ps = r.sample(self.dpool(), r.choice([0, 1, 2, 3]))
+            ps = r.sample(WVAR if self.withfn else POOL, r.choice([0, 1, 2, 3]))
             # (a parenthesised object-literal method gets plain parameters: known finding C02/paren-method)
             self.default_names = set()
             pl, args = self.params(ps, plain=(k == 'method'))
@@ -657,27 +669,27 @@ class _Gen:
             a = self.scope(depth, False, set(), no_var)
             return 'switch(2){case 1:out("no");case 2:%sdefault:%s}' % (a, self.uses(1))
         if k == 'forpat':
-            v, w = r.sample(self.dpool(), 2)
+            v, w = r.sample(self.lpool(), 2)
             inner = 'out(%s,%s);' % (v, w) + self.scope(depth, False, {v, w}, no_var | {v, w})
             if r.random() < 0.5:
                 return 'for(const [%s,%s] of [[%s,%s]]){%s}' % (v, w, self.val(v), self.val(w), inner)
             return 'for(let {%s,k:%s} of [{%s:%s,k:%s}]){%s}' % (v, w, v, self.val(v), self.val(w), inner)
         if k == 'forvar':
-            cand = [x for x in self.dpool() if x not in no_var]
+            cand = [x for x in (WVAR if self.withfn else POOL) if x not in no_var]
             if cand:
                 v = r.choice(cand)
                 inner = 'out(%s);' % v + self.scope(depth, False, {v}, no_var)
                 return r.choice(['for(var %s of [%s]){%s}', 'for(var %s in {%s:1}){%s}']) % (v, self.val(v), inner)
             k = 'forin'
         if k == 'forin':
-            v = r.choice(self.dpool())
+            v = r.choice(self.lpool())
             inner = 'out(%s);' % v + self.scope(depth, False, {v}, no_var | {v})
             return 'for(const %s in {%s:1}){%s}' % (v, self.val(v), inner)
         if k == 'catchpat':
-            v, w = r.sample(self.dpool(), 2)
+            v, w = r.sample(self.lpool(), 2)
             inner = self.scope(depth, False, {v, w}, no_var | {v, w})
             return 'try{throw {m:%s,n:[%s]}}catch({m:%s,n:[%s]}){out(%s,%s);%s}' % (self.val(v), self.val(w), v, w, v, w, inner)
-        v = r.choice(self.dpool())
+        v = r.choice(self.lpool())
         if k in ('for', 'forof'):
             # the body block may declare the loop variable's name again (a separate scope in ECMAScript), but then
             # nothing refers to that name before the inner declaration (temporal dead zone; known finding C02/tdz)
